@@ -18,11 +18,15 @@ SRC = {
     "pkg.b": '"""Module b, see L{f} and L{X}."""\nfrom pkg.a import C\ndef f(x: C) -> C:\n    """Function f, see L{C} and L{pkg.a.D.m}."""\n\nX: C = None\n"""Variable X."""\n',
 }
 OBJECTS = ["pkg", "pkg.a", "pkg.a.C", "pkg.a.C.m", "pkg.a.C.v", "pkg.a.D", "pkg.a.D.m", "pkg.a._P", "pkg.b", "pkg.b.f", "pkg.b.X"]
-PARENT = {n: (n.rsplit(".", 1)[0] if "." in n else None) for n in OBJECTS}
+# extended model (C12): module b also has a subclass of a.C - a subclass ACROSS modules, hidden only through its module when b is
+# hidden - with a nested class that is itself a subclass of a.C
+SRC_B_X = SRC["pkg.b"] + 'class E(C):\n    """Class E, subclass across modules."""\n    class N(C):\n        """Nested class N."""\n'
+OBJECTS_X = OBJECTS + ["pkg.b.E", "pkg.b.E.N"]
+PARENT = {n: (n.rsplit(".", 1)[0] if "." in n else None) for n in OBJECTS_X}
 PRIV = [model.PrivacyClass.HIDDEN, model.PrivacyClass.PRIVATE, model.PrivacyClass.PUBLIC]
 
 
-def build(table=None, opts=None):
+def build(table=None, opts=None, extended=False):
     """-> System; table: {fullName: PrivacyClass} (names not in the table keep their default privacy)."""
     import copy
     opts = copy.copy(opts or OPTS)
@@ -33,7 +37,7 @@ def build(table=None, opts=None):
     b = s.systemBuilder(s)
     b.addModuleString(SRC["pkg"], "pkg", is_package=True)
     b.addModuleString(SRC["pkg.a"], "a", parent_name="pkg")
-    b.addModuleString(SRC["pkg.b"], "b", parent_name="pkg")
+    b.addModuleString(SRC_B_X if extended else SRC["pkg.b"], "b", parent_name="pkg")
     b.buildModules()
     return s
 
